@@ -881,6 +881,7 @@ void sim_conflicts_clear(void) { g_conflict_pcs.clear(); }
 size_t sim_conflicts_count(void) { return g_conflict_pcs.size(); }
 void sim_alloc_fail_at(uint64_t k) { g_allocs = 0; g_alloc_fail_at = k; }
 uint64_t sim_alloc_count(void) { return g_allocs; }
+uint64_t sim_alloc_failures(void) { return g_alloc_failures; }
 uint64_t sim_steps_now(void) { return g_steps; }
 void sim_set_step_limit(uint64_t limit) { g_step_limit = limit; }
 int sim_last_unwind(void) { return g_last_unwind; }
